@@ -26,7 +26,7 @@ def showOffs (l : List Nat) : String :=
 def facts (u : U) (i : Nat) : String :=
   let x := u.rep i
   let rk := if x.r = .forward then "F" else toString (rKind x.r)
-  let cmp := if comparable u (u.under.length + 2) x.g then "1" else "0"
+  let cmp := if comparable u (u.under.length + 1000) x.g then "1" else "0"
   let extra :=
     if x.kind == 25 then (match x.r with | .node (.struct _) _ => showOffs (rOffsets x.r) | _ => "f?")
     else if x.kind == 17 then (match u.underlying x.g with | .array n _ => "n" ++ toString n | _ => "-")
